@@ -14,6 +14,11 @@ PKGS = {
     "noinj": {"p.go": "package noinj\n\ntype A struct{ N int }\n\nfunc NewA() A { return A{N: 1} }\n"},
     "needs": {"p.go": "package needs\n\ntype A struct{ N int }\n\nfunc NewA() (A, error) { return A{N: 1}, nil }\n",
               "wire.go": HDR % "needs" + "func InitA() A {\n\tpanic(wire.Build(NewA))\n}\n"},
+    "nores": {"p.go": "package nores\n\ntype A struct{ N int }\n\nfunc NewA() A { return A{N: 1} }\n",
+              "wire.go": HDR % "nores" + "func InitA() {\n\tpanic(wire.Build(NewA))\n}\n"},
+    "showp": {"p.go": "package showp\n\nimport \"github.com/google/wire\"\n\ntype DSN string\ntype Flags int\ntype Port int\ntype Config struct{ Port Port }\ntype In struct{ Name Name }\ntype Name string\ntype Clock struct{}\n\n"
+                      "func NewConfig(d DSN, f Flags) Config { return Config{} }\nfunc NewClock() Clock { return Clock{} }\n\n"
+                      "var Set = wire.NewSet(NewConfig, wire.FieldsOf(new(Config), \"Port\"), NewClock, wire.FieldsOf(new(In), \"Name\"))\n"},
     "cyc": {"p.go": "package cyc\n\nimport \"github.com/google/wire\"\n\ntype A struct{ N int }\ntype B struct{ N int }\n\nfunc NewA(b B) A { return A{} }\nfunc NewB(a A) B { return B{} }\nfunc NewC() int { return 1 }\n\nvar Unused = wire.NewSet(NewA, NewB)\n",
             "wire.go": HDR % "cyc" + "func InitC() int {\n\tpanic(wire.Build(NewC))\n}\n"},
 }
@@ -245,6 +250,7 @@ def eng_cli(pid, tier, wd, known, replay=None):
         for _ in range(n_h):
             hists.append([rng.choice(ops_all) for _ in range(rng.choice([6, 10, 14]))])
         hists.append([("switch", 1), ("gen",), ("switch", 2), ("gen",), ("diff",)])          # long output then short output
+        hists.append([("switch", 4), ("gen",), ("switch", 2), ("gen",), ("diff",)])          # outputs differing only in letter case
         hists.append([("replace", "garbage"), ("switch", 4), ("gen",), ("diff",), ("gen",), ("diff",)])
         hists.append([("switch", 1), ("gen",), ("switch", 3), ("gen",), ("diff",), ("switch", 4), ("gen",), ("diff",)])
         rep = {"stale": STALE % "h", "garbage": GARBAGE, "noncomp": NONCOMP % "h"}
@@ -304,6 +310,22 @@ def eng_cli(pid, tier, wd, known, replay=None):
                 c_rc, so, se = wire(root, ["check", "./" + n])
                 s_rc, sso, sse = wire(root, ["show", "./" + n])
                 stats["invocations"] += 2
+                if n == "showp":
+                    # grouping of outputs by the outside types needed to obtain them (the property's wording)
+                    groups, cur = {}, None
+                    for line in sso.split("\n"):
+                        m = re.match(r"\tOutputs given (.*):$", line)
+                        if m:
+                            cur = m.group(1); continue
+                        m = re.match(r"\t\t(\S+)$", line)
+                        if m and cur is not None:
+                            groups[m.group(1).split(".")[-1]] = cur
+                    want = {"Config": "DSN, Flags", "Port": "DSN, Flags", "Clock": "no inputs", "Name": "In"}
+                    got = {k: ", ".join(x.split(".")[-1] for x in v.split(", ")) for k, v in groups.items()}
+                    if got != want:
+                        viol.append(({"property": pid, "kind": "failing-input", "broken": "C19 oracle: wire show grouping", "input": {"package": n, "files": allp[n]},
+                                      "impl": {"show": sso[-1200:]}, "oracle": ["wire show groups %s, the outside inputs needed are %s" % (got, want)], "seed": seed()}, True))
+                    continue
                 if n == "cyc":
                     # an unused top-level set with a cycle: check must report it although gen does not look at it
                     if c_rc == 0:
